@@ -233,15 +233,18 @@ class NB:
         axis = d(st.sampled_from([len(shape) - 1, len(shape) - 1, 1 if len(shape) > 2 else len(shape) - 1, 2 if len(shape) > 3 else len(shape) - 1]))
         if other is not None and self.info(other)["shape"][:axis] + self.info(other)["shape"][axis + 1:] != shape[:axis] + shape[axis + 1:]:
             other = None
+        exact = self.profile == "exact"  # the int8 reference kernel demands identical quantisation; C01's exact class keeps to it
+        if exact and other is not None and (self.info(other)["scale"], self.info(other)["zp"]) != (X["scale"], X["zp"]):
+            other = None
         if other is None:
             s2 = list(shape)
             s2[axis] = d(st.one_of(st.integers(1, 8), st.sampled_from([1, 16, 17])))
-            q2 = self.quant(X["dtype"], (X["scale"], X["zp"]))
+            q2 = self.quant(X["dtype"], (X["scale"], X["zp"])) if not exact else (X["scale"], X["zp"])
             other = self.t("in", s2, X["dtype"], q2[0], q2[1])
             self.inputs.append(other)
         so = list(shape)
         so[axis] = shape[axis] + self.info(other)["shape"][axis]
-        o = self.out("concat", so, X["dtype"], self.quant(X["dtype"], (X["scale"], X["zp"])))
+        o = self.out("concat", so, X["dtype"], self.quant(X["dtype"], (X["scale"], X["zp"])) if not exact else (X["scale"], X["zp"]))
         self.op("CONCATENATION", [x, other], [o], "ConcatenationOptions", dict(Axis=axis, FusedActivationFunction=0))
         return o
 
@@ -476,6 +479,8 @@ def network(profile="exact", max_ops=6, dtypes=("int8", "int8", "int8", "uint8",
             elif kind in ("add", "sub", "mul", "maximum", "minimum"):
                 other = None
                 same = [t for t in history[:-1] if nb.info(t)["shape"] == X["shape"] and nb.info(t)["dtype"] == X["dtype"]]
+                if kind in ("maximum", "minimum"):  # the reference kernels demand identical quantisation
+                    same = [t for t in same if (nb.info(t)["scale"], nb.info(t)["zp"]) == (X["scale"], X["zp"])]
                 if same and draw(st.booleans()):
                     other = draw(st.sampled_from(same))  # residual connection
                 cur = nb.binary(cur, kind.upper(), other)
